@@ -15,7 +15,7 @@ import os
 import numpy as np
 
 PROP = 'C05'
-TARGETS = ['T1', 'T1b', 'T4', 'T11', 'T11b', 'T11c', 'T11d', 'T12']
+TARGETS = ['T1', 'T1b', 'T4', 'T11', 'T11b', 'T11c', 'T11d', 'T11e', 'T12']
 LEAN_MODULES = ['HdVerif.Props.C05']
 MODEL_MODULES = ['HdVerif.Model.FrameAccess']
 NAMESPACE = 'HdVerif.C05'
@@ -368,6 +368,29 @@ def _check_image(ctx, d, ds, fr, reqs, pending):
             if st == 'ok':
                 ctx.fail({'image': d, 'path': name + '/cached', 'batch': 'n+1', 'as_index': as_index},
                          'cached-array batch accepted out-of-range number', site='get_stored_frames/cached')
+        # ---- the pixel data are replaced on the object AFTER the whole array was decoded and cached (correcting a file in
+        # memory): every access path must answer from the new data, as pydicom's own staleness check does
+        if native and d['bits'] >= 8 and n >= 2 and name in ('memory', 'eager', 'eager-path', 'eager-bytes') \
+                and not np.array_equal(ref[0], ref[n - 1]):
+            flen = d['rows'] * d['cols'] * d['samples'] * d['bits'] // 8
+            pd = bytes(im.PixelData)
+            swapped = pd[(n - 1) * flen:n * flen] + pd[flen:(n - 1) * flen] + pd[:flen] + pd[n * flen:]
+            st, _ = _fetch(lambda: im['PixelData'].__setattr__('value', swapped))
+            if st == 'ok':
+                ref2 = ref.copy()
+                ref2[0], ref2[n - 1] = ref[n - 1], ref[0]
+                for what, f, want in (('pixel_array', lambda: np.asarray(im.pixel_array).reshape(ref.shape), ref2),
+                                      ('get_stored_frame', lambda: im.get_stored_frame(1), ref2[0]),
+                                      ('get_stored_frame', lambda: im.get_stored_frame(n), ref2[n - 1]),
+                                      ('get_stored_frames', lambda: im.get_stored_frames(), ref2),
+                                      ('get_raw_frame+decode', lambda: im.get_stored_frames([n, 1]), ref2[[n - 1, 0]])):
+                    st, val = _fetch(f)
+                    ctx.case(path=name + '/pixel-data-replaced')
+                    if st != 'ok' or not np.array_equal(np.asarray(val).astype(np.int64), want.astype(np.int64)):
+                        ctx.fail({'image': d, 'path': name, 'call': what,
+                                  'history': 'decode whole array, replace PixelData value (first and last frame swapped), fetch'},
+                                 'answered from the pixel data that were replaced' if st == 'ok' else f'refused: {val}',
+                                 site=what + '/pixel-data-replaced')
     # raw reader API
     st, rd = _fetch(hd.io.ImageFileReader, DicomBytesIO(blob))
     if st == 'ok':
@@ -579,6 +602,23 @@ def _colour(ctx, reqs, pending):
             continue
         d = {'idx': idx, 'colour': pi, 'frames': n, 'rows': rows, 'cols': cols, 'ts': ts.name, 'planar': planar}
         flen = rows * cols * bpp
+        # the file reader used directly (it passes its own set of decode parameters, planar configuration among them)
+        from pydicom.filebase import DicomBytesIO
+        st, rd = _fetch(hd.io.ImageFileReader, DicomBytesIO(blob))
+        if st == 'ok':
+            with rd:
+                for i in range(n):
+                    st2, val = _fetch(rd.read_frame, i, correct_color=False)
+                    ctx.case(path='reader/colour', photometric=pi, planar=planar,
+                             nontrivial_key=('reader-colour', pi, planar, n, i, rows * cols))
+                    if st2 != 'ok' or not np.array_equal(np.asarray(val), ref[i]):
+                        ctx.fail({'image': d, 'path': 'reader', 'i': i},
+                                 f'reader colour frame differs from pydicom decode: {val if st2 != "ok" else "other pixels"}',
+                                 site='read_frame/colour')
+                    st3, rawf = _fetch(rd.read_frame_raw, i)
+                    if st3 != 'ok' or bytes(rawf) != raw[i * flen:(i + 1) * flen]:
+                        ctx.fail({'image': d, 'path': 'reader', 'i': i}, 'reader raw frame bytes are not the bytes of that frame',
+                                 site='read_frame_raw/colour')
         for name, mk in (('memory', lambda: hd.Image.from_dataset(pydicom.dcmread(io.BytesIO(blob)), copy=False)),
                          ('eager', lambda: hd.imread(io.BytesIO(blob))),
                          ('lazy', lambda: hd.imread(io.BytesIO(blob), lazy_frame_retrieval=True))):
